@@ -9,7 +9,7 @@ import (
 // Skeleton programs for dependency / fork shapes that the purely random
 // generator reaches rarely.  Types and literal values are still random.
 
-const NTemplates = 12
+const NTemplates = 13
 
 // NFileTemplates file-passing skeletons follow the NTemplates dataflow ones.
 const NFileTemplates = 8
@@ -332,6 +332,30 @@ func Template(kind int, seed int64, cfg *Config) *Program {
 			},
 			Ret: []Binding{{Id: "e", Exp: ref("ALLEMPTY", "ym")}, {Id: "f", Exp: ref("ALLEMPTY", "ya")}, {Id: "g", Exp: ref("SOMEEMPTY", "ym")}}}
 		p.Stages = p.Stages[len(p.Stages)-1:]
+		p.Pipelines = []*Pipeline{inner, top}
+	case 12:
+		// nested map calls where one level has a run-time size: the inner call
+		// maps over a collection from a stage while the outer one maps over a
+		// literal (SD), and the other way round (DS); the merged result goes to
+		// a consumer stage and to the top level
+		one := src(&Stage{Name: "ONE", Ins: []Param{{Name: "x", Type: TInt}, {Name: "y", Type: TInt}}, Outs: []Param{{Name: "xo", Type: TInt}}})
+		grid := src(&Stage{Name: "GRID", Ins: []Param{{Name: "v", Type: ArrayOf(ArrayOf(TInt))}}, Outs: []Param{{Name: "n", Type: TInt}}})
+		geni := src(&Stage{Name: "GENI", Ins: []Param{{Name: "seed", Type: TInt}}, Outs: []Param{{Name: "arr", Type: ArrayOf(TInt)}}})
+		p.Stages = []*Stage{geni, one, grid}
+		inner := &Pipeline{Name: "INNER", Ins: []Param{{Name: "xs", Type: ArrayOf(TInt)}, {Name: "y", Type: TInt}},
+			Outs: []Param{{Name: "xo", Type: ArrayOf(TInt)}},
+			Calls: []*Call{{Callee: "ONE", Map: true, Binds: []Binding{{Id: "x", Exp: self("xs"), Split: true}, {Id: "y", Exp: self("y")}}}},
+			Ret:   []Binding{{Id: "xo", Exp: ref("ONE", "xo")}}}
+		lit2 := func() *Exp { return &Exp{Kind: EArray, Elems: []*Exp{lit(int64(g.r.Intn(100))), lit(int64(100 + g.r.Intn(100)))}} }
+		top := &Pipeline{Name: "TOP", Outs: []Param{{Name: "sd", Type: ArrayOf(ArrayOf(TInt))}, {Name: "ds", Type: ArrayOf(ArrayOf(TInt))}},
+			Calls: []*Call{
+				{Callee: "GENI", Binds: []Binding{{Id: "seed", Exp: lit(s1)}}},
+				{Callee: "INNER", Alias: "SD", Map: true, Binds: []Binding{{Id: "xs", Exp: ref("GENI", "arr")}, {Id: "y", Exp: lit2(), Split: true}}},
+				{Callee: "INNER", Alias: "DS", Map: true, Binds: []Binding{{Id: "xs", Exp: lit2()}, {Id: "y", Exp: ref("GENI", "arr"), Split: true}}},
+				{Callee: "GRID", Alias: "SEE_SD", Binds: []Binding{{Id: "v", Exp: ref("SD", "xo")}}},
+				{Callee: "GRID", Alias: "SEE_DS", Binds: []Binding{{Id: "v", Exp: ref("DS", "xo")}}},
+			},
+			Ret: []Binding{{Id: "sd", Exp: ref("SD", "xo")}, {Id: "ds", Exp: ref("DS", "xo")}}}
 		p.Pipelines = []*Pipeline{inner, top}
 	default:
 		fk := kind - NTemplates // file-passing skeleton number
